@@ -37,6 +37,8 @@ def rule(name, lhs, rhs): return ('rule', name, lhs, rhs)
 def rewrite(*rules): return ('rewrite', list(rules))
 def mmatch(*eqs): return ('mmatch', [list(e) for e in eqs])
 def extract(t, cf='AstSize'): return ('extract', t, cf)
+def unionj(s, t, just): return ('union', s, t, just)
+def explain(s, t): return ('explain', s, t)
 
 QUICK = [
     # --- multi-slot leaves: redundancy, symmetry, all sharing patterns between the two sides
@@ -303,4 +305,32 @@ MODEL_THOROUGH = [
         'nested lets, substitution form and the conditional rule in one rule set', distinct=[[0, 2, 3], [1, 2, 3]]),
     _md('MD9', 4, mlet(2, mlet(3, madd(mvar(3), mvar(2)), mvar(2)), mmul(mvar(0), mvar(1))), ['let-subst', 'let-add', 'let-var', 'let-other', 'let-const'], 2,
         'the same with the extraction-based substitution method', subst_method='ExtractionSubst', distinct=[[0, 2, 3], [1, 2, 3]]),
+]
+
+
+# --- C07: explanations (MIR of the `explanations` build). Every union carries a justification; `explain` calls EGraph::explain_equivalence and the returned proof
+# DAG is re-checked node by node on terms (mirsmt/proofcheck.py). Names are tied distinct (one coincidence pattern), all orders of the names are explored.
+def _ex(name, lang, nn, ops, note, ordered=None):
+    t = T(name, lang, nn, ops, distinct=[list(range(nn))], note=note + ' [explanations build]'); t.light = True; t.ordered = ordered
+    if ordered: t.note += ' [names %s assumed increasing]' % (ordered,)
+    return t
+EXPLAIN = [
+    _ex('E1', 'Lf', 2, [add(f(0, 1)), add(g(0, 1)), unionj(f(0, 1), g(0, 1), 'j1'), explain(f(0, 1), g(0, 1)), explain(g(1, 0), f(1, 0))],
+        'one asserted equation: the leaf itself; the renamed and flipped instance'),
+    _ex('E2', 'Lf', 2, [add(f(0, 1)), add(g(0, 1)), add(h(0, 1, 1)), unionj(f(0, 1), g(0, 1), 'fg'), unionj(h(0, 1, 1), g(0, 1), 'hg'), explain(f(0, 1), h(0, 1, 1)), explain(h(1, 0, 0), f(1, 0))],
+        'transitivity through a class that was merged twice (union-find chain)'),
+    _ex('E3', 'Lb', 2, [add(u(k(0, 1))), add(u(j(0, 1))), unionj(k(0, 1), j(0, 1), 'kj'), explain(u(k(0, 1)), u(j(0, 1))), explain(lam(0, k(0, 1)), lam(0, j(0, 1))), explain(lam(1, u(j(1, 0))), lam(1, u(k(1, 0))))],
+        'congruence, also under a binder (terms the e-graph has not seen before the query)'),
+    _ex('E5', 'Lf', 2, [add(f(0, 1)), add(f(1, 0)), unionj(f(0, 1), f(1, 0), 'swap'), explain(f(0, 1), f(1, 0)), add(g(0, 1)), unionj(g(0, 1), f(0, 1), 'gf'), explain(g(0, 1), g(1, 0))],
+        'a transposition symmetry, then inherited by a class merged in later'),
+    _ex('E6', 'Lf', 3, [add(h(0, 1, 2)), add(h(1, 2, 0)), unionj(h(0, 1, 2), h(1, 2, 0), 'rot'), explain(h(0, 1, 2), h(1, 2, 0)), explain(h(0, 1, 2), h(2, 0, 1)), explain(h(2, 0, 1), h(0, 1, 2))],
+        'a symmetry of order 3: the asserted rotation, its square, its inverse (permutation and inverse differ)'),
+]
+EXPLAIN_THOROUGH = [
+    _ex('E4', 'Lb', 3, [add(u(k(0, 1))), add(u(j(0, 1))), unionj(k(0, 1), j(0, 1), 'kj'), explain(lam(1, u(j(1, 0))), lam(2, u(k(2, 0))))],
+        'congruence under binders with different bound names (alpha-variants)'),
+    _ex('E7', 'Lf', 3, [add(f(0, 1)), add(f(0, 2)), unionj(f(0, 1), f(0, 2), 'red'), explain(f(0, 1), f(0, 2)), explain(f(1, 0), f(1, 2))],
+        'a redundant slot: the equation between two instances that differ in the redundant argument'),
+    _ex('E8', 'Lb', 3, [add(u(t3(0, 1, 2))), add(t3(1, 2, 0)), unionj(t3(0, 1, 2), t3(1, 2, 0), 'rot'), explain(u(t3(0, 1, 2)), u(t3(2, 0, 1))), explain(lam(0, t3(0, 1, 2)), lam(0, t3(1, 2, 0)))],
+        'congruence over a child class with a symmetry of order 3, also under a binder'),
 ]
